@@ -104,6 +104,7 @@ class NoopSpecHashes:
 class FileSpecHashes:
     path: str = attrs.field()
     hashes: dict = attrs.field(factory=dict, init=False)
+    _modified: bool = attrs.field(default=False, init=False, repr=False)
 
     def __attrs_post_init__(self):
         try:
@@ -124,15 +125,21 @@ class FileSpecHashes:
 
     def update(self, target):
         self.hashes[target.name] = hash_spec(target.spec)
+        self._modified = True
 
     def invalidate(self, target):
         try:
             del self.hashes[target.name]
         except KeyError:
             pass
+        else:
+            self._modified = True
 
     def close(self):
-        dump_json_atomically(self.hashes, self.path)
+        # Only a command that changed a hash writes the file; see
+        # TrackingBackend.close().
+        if self._modified:
+            dump_json_atomically(self.hashes, self.path)
 
     def __enter__(self):
         return self
